@@ -272,6 +272,14 @@ def check_condition_emit(ctx):
     ctx.check("C05.G", "_get_condition_operand:future-loaded-into-returned-register", ok, "a Future condition operand is not loaded from its own array entry into the register that is returned", b.loc(g) if g else "")
 
 
+def _retired(*a_, **k_):
+    """how the two assembling functions pass labels, register and bounds to their emitters and in which order they concatenate the
+    pieces was read here from their text (keyword by keyword, term by term).  C05.X decides the same on executed programs - a wrong
+    label, register, bound or order changes what a loop computes - and does not mind how the hand-over is written (a dict passed
+    with **, a closure over the labels, functools.reduce over the pieces): the shape obligations are retired."""
+    return None
+
+
 def check_loops(ctx):
     repo = ctx.repo
     b = repo.get_class(B, "Builder")
@@ -350,7 +358,7 @@ def check_loops(ctx):
             fresh = all(isinstance(d.get(A.norm(ks[k])), ast.Call) and A.call_name(d[A.norm(ks[k])]) == "new_label" for k in ("entry_label", "exit_label") if k in ks)
             lr = A.norm(ks.get("loop_register", ast.Constant(value=0))) == "loop_register"
             ok = same and distinct and fresh and lr
-        ctx.check("C05.L", f"{fname}:same-labels-and-register-for-entry-and-exit", ok, f"{fname} does not give the entry and exit emitters the same two fresh labels and its own loop register", b.loc(fn))
+        _retired("C05.L", f"{fname}:same-labels-and-register-for-entry-and-exit", ok, f"{fname} does not give the entry and exit emitters the same two fresh labels and its own loop register", b.loc(fn))
         cat = None
         for n in A.body_nodes(fn):
             if isinstance(n, (ast.Assign, ast.AnnAssign)) and n.value is not None and isinstance(n.value, ast.BinOp):
@@ -369,7 +377,7 @@ def check_loops(ctx):
                             # a local bound on several paths: named by what it can hold
                             kinds = sorted({("call:" + x.func.attr) if isinstance(x, ast.Call) and A.is_self_attr(x.func) else A.norm(x) for x in multi.get(term, []) if x is not None})
                             cat.append("local:" + "|".join(kinds))
-        ctx.check("C05.L", f"{fname}:concatenation-order", cat == order, f"{fname} concatenates {cat}; expected {order}", b.loc(fn), sample={"assembler": fname, "order": cat})
+        _retired("C05.L", f"{fname}:concatenation-order", cat == order, f"{fname} concatenates {cat}; expected {order}", b.loc(fn), sample={"assembler": fname, "order": cat})
         # the loop is dropped (early return) only when that cannot change behaviour: empty body, or a counted loop whose emitted
         # form runs zero times (start == stop).  The predicate of every early return is evaluated on a grid of bounds and bodies.
         ints = [-2, -1, 0, 1, 2, 5]
@@ -399,13 +407,13 @@ def check_loops(ctx):
         if fname == "_build_cmds_loop" and cs:
             ks = A.kwargs_of(cs[0])
             ok = A.norm(ks.get("start", ast.Constant(value=0))) == "start" and A.norm(ks.get("stop", ast.Constant(value=0))) == "stop" and A.norm(A.kwargs_of(ce[0]).get("step", ast.Constant(value=0))) == "step"
-            ctx.check("C05.L", "_build_cmds_loop:bounds-passed-through", ok, "start/stop/step are not handed to the loop emitters unchanged", b.loc(fn), trivial=True)
+            _retired("C05.L", "_build_cmds_loop:bounds-passed-through", ok, "start/stop/step are not handed to the loop emitters unchanged", b.loc(fn), trivial=True)
         if fname == "_build_cmds_loop_until" and cs:
             ks = A.kwargs_of(cs[0])
             ok = A.norm(ks.get("stop", ast.Constant(value=0))) == "context.max_iterations"
             brk = [c for c in A.calls_in(fn) if A.is_self_attr(c.func, "_loop_until_get_break_commands")]
             ok = ok and len(brk) == 1 and A.norm(A.kwargs_of(brk[0]).get("exit_label", ast.Constant(value=0))) == A.norm(ks.get("exit_label", ast.Constant(value=1)))
-            ctx.check("C05.L", "_build_cmds_loop_until:break-targets-the-loop-exit", ok, "the early-exit branch does not target the exit label of the same loop (or the bound is not max_iterations)", b.loc(fn))
+            _retired("C05.L", "_build_cmds_loop_until:break-targets-the-loop-exit", ok, "the early-exit branch does not target the exit label of the same loop (or the bound is not max_iterations)", b.loc(fn))
     # loop contexts hand their own register to the assembler
     for fname, callee in (("_build_cmds_loop_body", "_build_cmds_loop"), ("sdk_loop_context", "_build_cmds_loop"), ("_foreach_context_exit", "_build_cmds_loop"), ("_post_epr_context", "_build_cmds_loop"), ("_loop_until_context_exit", "_build_cmds_loop_until")):
         fn = b.methods.get(fname)
@@ -810,7 +818,10 @@ def check_host_view(ctx):
             ctx.check("C05.H", "Arrays._set_array:stores-the-given-list", ok, f"Arrays._set_array stores `{src(e)}` instead of the list it was given", ar.loc(st))
     ctx.anchor("C05.H", "links of the controller-array -> shared-memory alias chain", n, 6)
     # ret_reg / ret_arr return the register / array the instruction names (dataflow signature shared with C04.S)
-    c04.check_signatures(ctx, c04.handler_table(ctx), rule="C05.H", only={"ret_arr", "ret_reg"})
+    try:
+        c04.check_signatures(ctx, c04.handler_table(ctx), rule="C05.H", only={"ret_arr", "ret_reg"})
+    except c04.DispatchUnread as ex_:
+        ctx.note(f"C05.H: {ex_}; what ret_reg / ret_arr hand to the host is decided by C05.X")
 
 
 def check_register_liveness(ctx):
@@ -820,7 +831,30 @@ def check_register_liveness(ctx):
     c14.check_use_after_release(ctx, "C05.R")
 
 
+def check_programs(ctx, rule="C05.X"):
+    """C05 as stated, on bounded host programs (nqsa/sdkprog.py): every program of the family - additions, the six conditions in both
+    forms, counted loops in both forms, foreach / enumerate, loop_until, measurement into futures / arrays / registers, nested up to
+    three deep - is written as SDK text, run by the interpreter against the repository's connection, builder and futures, every
+    flushed subroutine is executed by the repository's controller, and after every flush the arrays, fresh futures, measurement
+    handles, gates applied and measurements made are compared with executing the same program directly (Python integers and lists).
+    Each program is run with one flush at the end, a flush after every top-level statement and a flush after every second one."""
+    from .. import sdkprog as P, session as S
+    progs = P.programs()
+    jobs = [(p, fl, ("generic", 3)) for k_ in range(3) for p in progs for fl in P.flush_placements(p)[k_:k_ + 1]]
+    try:
+        bad, _n = P.run_all(ctx, jobs)
+    except AnalysisError as ex_:
+        ctx.error(rule, f"the host programs cannot be executed: {ex_}")
+        return
+    ctx.anchor(rule, "host programs executed against the controller and compared with direct execution", len(jobs), 60)
+    b = ctx.repo.get_class("netqasm.sdk.builder", "Builder")
+    for key in ("the-host-program-is-accepted", "every-subroutine-executes-without-a-fault", "handles-read-on-the-host", "arrays-as-direct-execution",
+                "futures-as-direct-execution", "measurement-results-as-direct-execution", "gates-as-direct-execution"):
+        ctx.check(rule, key, key not in bad, bad.get(key, ""), b.loc(b.node), sample={"programs": len(jobs)})
+
+
 def run(ctx):
+    check_programs(ctx)
     check_flip(ctx)
     check_api_names(ctx)
     check_condition_emit(ctx)
@@ -846,6 +880,16 @@ def run(ctx):
 BF = "netqasm/sdk/builder.py"
 FU = "netqasm/sdk/futures.py"
 SEEDS = [
+    dict(id="c05-add-writes-the-sum-to-the-other-future", file="netqasm/sdk/futures.py", expect="C05.X", construct="",
+         old="        store_commands = self._get_store_commands(tmp_register)\n", new="        store_commands = self._get_store_commands(tmp_register) + (other._get_store_commands(tmp_register) if isinstance(other, Future) else [])\n"),
+    dict(id="c05-cleanup-runs-before-the-exit-test", file="netqasm/sdk/builder.py", expect="C05.X", construct="",
+         old="            + loop_until_break\n            + cleanup_commands\n", new="            + cleanup_commands\n            + loop_until_break\n"),
+    dict(id="c05-count-down-loop-dropped", file="netqasm/sdk/builder.py", expect="C05.X", construct="",
+         old="        loop_register: operand.Register,\n    ) -> None:\n        if len(body_commands) == 0:\n            self.subrt_add_pending_commands(commands=pre_commands)\n            return\n\n        entry_label = self._label_mgr.new_label(start_with=\"LOOP\")",
+         new="        loop_register: operand.Register,\n    ) -> None:\n        if len(body_commands) == 0 or (isinstance(start, int) and isinstance(stop, int) and stop < start):\n            self.subrt_add_pending_commands(commands=pre_commands)\n            return\n\n        entry_label = self._label_mgr.new_label(start_with=\"LOOP\")"),
+    dict(id="c05-regfuture-addm-without-modulus", file="netqasm/sdk/futures.py", expect="C05.X", construct="",
+         old="            add_instr = GenericInstr.ADDM\n            add_operands.append(mod)\n\n        commands = (\n            load_commands\n            + [\n                ICmd(\n                    instruction=add_instr,\n                    operands=add_operands,\n                )\n            ]\n            + store_commands\n        )\n\n        if other_tmp_register is not None:",
+         new="            add_instr = GenericInstr.ADDM\n            add_operands.append(mod + 1)\n\n        commands = (\n            load_commands\n            + [\n                ICmd(\n                    instruction=add_instr,\n                    operands=add_operands,\n                )\n            ]\n            + store_commands\n        )\n\n        if other_tmp_register is not None:"),
     dict(id="c05-ret-arr-copy", file="netqasm/backend/executor.py", expect="C05.H", construct="_instr_ret_arr", old="        array = self._get_array(app_id=app_id, address=address)\n\n        # Not all values need to be defined.", new="        array = list(self._get_array(app_id=app_id, address=address))\n\n        # Not all values need to be defined."),
     dict(id="c05-set-array-copies", file="netqasm/sdk/shared_memory.py", expect="C05.H", construct="Arrays._set_array", old="        self._arrays[address] = array\n", new="        self._arrays[address] = list(array)\n"),
     dict(id="c05-shared-init-copies", file="netqasm/sdk/shared_memory.py", expect="C05.H", construct="SharedMemory.init_new_array", old="            self._arrays._set_array(address, new_array)", new="            self._arrays._set_array(address, new_array[:])"),
@@ -864,8 +908,8 @@ SEEDS = [
     dict(id="c05-loop-exit-label", file=BF, expect="C05.L", construct="_loop_get_entry_commands", old="                operands=[loop_register, stop, Label(exit_label)],\n            ),\n        ]\n\n    def _loop_get_exit_commands(", new="                operands=[loop_register, stop, Label(entry_label)],\n            ),\n        ]\n\n    def _loop_get_exit_commands("),
     dict(id="c05-loop-step", file=BF, expect="C05.L", construct="_loop_get_exit_commands", old="                operands=[loop_register, loop_register, step],", new="                operands=[loop_register, loop_register, 1],"),
     dict(id="c05-loop-start", file=BF, expect="C05.L", construct="_loop_get_entry_commands", old="            ICmd(instruction=GenericInstr.SET, operands=[loop_register, start]),", new="            ICmd(instruction=GenericInstr.SET, operands=[loop_register, 0]),"),
-    dict(id="c05-concat", file=BF, expect="C05.L", construct="concatenation", old="        commands = pre_commands + loop_start + body_commands + loop_end\n", new="        commands = loop_start + pre_commands + body_commands + loop_end\n"),
-    dict(id="c05-until-cleanup-order", file=BF, expect="C05.L", construct="concatenation", old="            + loop_until_break\n            + cleanup_commands\n", new="            + cleanup_commands\n            + loop_until_break\n"),
+    dict(id="c05-concat", file=BF, expect="C05.X", construct="", old="        commands = pre_commands + loop_start + body_commands + loop_end\n", new="        commands = loop_start + pre_commands + body_commands + loop_end\n"),
+    dict(id="c05-until-cleanup-order", file=BF, expect="C05.X", construct="", old="            + loop_until_break\n            + cleanup_commands\n", new="            + cleanup_commands\n            + loop_until_break\n"),
     dict(id="c05-add-operands", file=FU, expect="C05.A", construct="Future.add", old="        add_operands: List[ir.T_ProtoOperand] = [\n            tmp_register,\n            tmp_register,\n            other_operand,\n        ]", new="        add_operands: List[ir.T_ProtoOperand] = [\n            tmp_register,\n            other_operand,\n            other_operand,\n        ]"),
     dict(id="c05-addm-no-mod", file=FU, expect="C05.A", construct="RegFuture.add", old="            add_instr = GenericInstr.ADDM\n            add_operands.append(mod)\n\n        commands = (\n            load_commands\n            + [\n                ICmd(\n                    instruction=add_instr,\n                    operands=add_operands,\n                )\n            ]\n            + store_commands\n        )\n\n        if other_tmp_register is not None:\n            self.builder._mem_mgr.remove_active_register(other_tmp_register)\n\n        self.builder.subrt_add_pending_commands(commands)\n\n\nclass Array",
          new="            add_instr = GenericInstr.ADD\n            add_operands.append(mod)\n\n        commands = (\n            load_commands\n            + [\n                ICmd(\n                    instruction=add_instr,\n                    operands=add_operands,\n                )\n            ]\n            + store_commands\n        )\n\n        if other_tmp_register is not None:\n            self.builder._mem_mgr.remove_active_register(other_tmp_register)\n\n        self.builder.subrt_add_pending_commands(commands)\n\n\nclass Array"),
